@@ -437,8 +437,7 @@ async def explore(acc, scenario, depth, seen, frontier, following):
                     nontrivial_key=(scenario["initial"], scenario["factory"], state, op)
                     if moved else None,
                     sample=({"scenario": scenario, "ops": history + (op,)}
-                            if moved and level == depth and transitions % 20011 == 0
-                            else None))
+                            if moved and level >= 3 and not acc.samples else None))
                 if state not in seen:
                     seen.add(state)
                     acc.outcome(state[0])
